@@ -220,6 +220,8 @@ def errkind_inventory(F, R):
         "<flatty_containers::flex::DataIter<'a, T, L, D> as core::iter::traits::iterator::Iterator>::next": ["InsufficientSize", "InsufficientSize", "InvalidData"],
         "<flatty_containers::flex::FromIterator<T, E, I> as flatty_base::emplacer::Emplacer<flatty_containers::flex::FlexVec<T, L>>>::emplace_unchecked": ["InsufficientSize", "InsufficientSize"],
         "flatty_containers::flex::FlexVec::<T, L>::push": ["InsufficientSize", "InsufficientSize"],
+        # content error: the shortfall of a SEALED item (fixed extent) is re-classified, see K1.sealed-shortfall
+        "<flatty_containers::flex::FlexVec<T, L> as flatty_base::traits::FlatValidate>::validate_unchecked::{closure#0}": ["InvalidData"],
         "<flatty_containers::vec::FromArray<T, N> as flatty_base::emplacer::Emplacer<flatty_containers::vec::FlatVec<T, L>>>::emplace_unchecked": ["InsufficientSize"],
         "<flatty_containers::vec::FromIterator<T, I> as flatty_base::emplacer::Emplacer<flatty_containers::vec::FlatVec<T, L>>>::emplace_unchecked": ["InsufficientSize"],
         "<flatty_containers::string::FromStr<S> as flatty_base::emplacer::Emplacer<flatty_containers::string::FlatString<L>>>::emplace_unchecked": ["InsufficientSize"],
